@@ -127,6 +127,21 @@ pub open spec fn pass1(es: Seq<Element>, gs: Seq<gds21::GdsElement>) -> bool { e
 pub open spec fn elem_small(e: Element) -> bool { match e.inner { Shape::Polygon(p) => all_small(p.points@) && p.points.len() < 0x7fff_ffff_ffff_ffff, _ => true } }
 pub open spec fn elems_small(es: Seq<Element>) -> bool { forall|i: int| 0 <= i < es.len() ==> elem_small(#[trigger] es[i]) }
 pub open spec fn texts_are(v: Seq<&gds21::GdsTextElem>, ts: Seq<gds21::GdsTextElem>) -> bool { v.len() == ts.len() && forall|j: int| 0 <= j < ts.len() ==> *(#[trigger] v[j]) == ts[j] }
+/// layout `l` is the import of GDSII structure `strukt` against cell map `m`
+pub open spec fn layout_imp(l: Layout, strukt: gds21::GdsStruct, m: CellMap) -> bool {
+    let gs = geoms(strukt.elems@); let ts = texts_of(strukt.elems@);
+    &&& l.name@ == strukt.name@
+    // one instance per structure reference, every placement of every array reference, in element order
+    &&& insts_are(l.insts@, strukt.elems@, m)
+    // no boundary, box or path is dropped: one raw element per geometry element, in order ...
+    &&& l.elems@.len() == gs.len()
+    &&& exists|e0: Seq<Element>| #[trigger] pass1(e0, gs) && forall|i: int| 0 <= i < gs.len() ==>
+            // ... whose net is the lower-cased string of the first label inside it on its layer (none if there is no such label)
+            elem_done(#[trigger] l.elems@[i], e0[i], ts)
+            // all other labels survive as annotations, in order
+            && l.annotations@.len() == annots(e0, ts).len()
+            && forall|k: int| 0 <= k < annots(e0, ts).len() ==> annot_is(#[trigger] l.annotations@[k], annots(e0, ts)[k])
+}
 /// slot `i` is among the first `n` keys of bucket `l`
 pub open spec fn visited(l: Seq<ElementKey>, n: int, i: int) -> bool { exists|q: int| 0 <= q < n && (#[trigger] l[q]).idx == i }
 
@@ -147,23 +162,10 @@ impl GdsImporter {
 //@   sub R6 /elems\.drain\(\)\.map\(\|\(_k, v\)\| v\)\.collect\(\)/ => elems.vp_into_vec()
 //@   spec
 //|     requires obeys_key_model::<i16>(), forall|k: int| 0 <= k < strukt.elems@.len() && (#[trigger] strukt.elems@[k]) is GdsBoundary ==> strukt.elems@[k]->GdsBoundary_0.xy@.len() < 0x7fff_ffff_ffff_ffff,
-//|     ensures final(self).cell_map == old(self).cell_map,
-//|         r is Ok ==> ({
-//|             let l = r->Ok_0; let gs = geoms(strukt.elems@); let ts = texts_of(strukt.elems@);
-//|             &&& final(self).ctx@ == old(self).ctx@ &&& l.name@ == strukt.name@
-//|             // one instance per structure reference, every placement of every array reference, in element order
-//|             &&& insts_are(l.insts@, strukt.elems@, old(self).cell_map)
-//|             // no boundary, box or path is dropped: one raw element per geometry element, in order ...
-//|             &&& l.elems@.len() == gs.len()
-//|             &&& exists|e0: Seq<Element>| #[trigger] pass1(e0, gs) && forall|i: int| 0 <= i < gs.len() ==>
-//|                     // ... whose net is the lower-cased string of the first label inside it on its layer (none if there is no such label)
-//|                     elem_done(#[trigger] l.elems@[i], e0[i], ts)
-//|                     // all other labels survive as annotations, in order
-//|                     && l.annotations@.len() == annots(e0, ts).len()
-//|                     && forall|k: int| 0 <= k < annots(e0, ts).len() ==> annot_is(#[trigger] l.annotations@[k], annots(e0, ts)[k])
-//|         }),
+//|     ensures final(self).cell_map == old(self).cell_map, final(self).lib == old(self).lib,
+//|         r is Ok ==> final(self).ctx@ == old(self).ctx@ && layout_imp(r->Ok_0, *strukt, old(self).cell_map),
 //@   loop 1 iter it
-//|             invariant obeys_key_model::<i16>(), self.cell_map == old(self).cell_map, self.ctx@ == old(self).ctx@.push(ErrorContext::Impl),
+//|             invariant obeys_key_model::<i16>(), self.cell_map == old(self).cell_map, self.lib == old(self).lib, self.ctx@ == old(self).ctx@.push(ErrorContext::Impl),
 //|                 layout.name@ == strukt.name@, layout.elems@.len() == 0, layout.annotations@.len() == 0, it.index@ <= strukt.elems@.len(),
 //|                 pass1(elems.v@, geoms(strukt.elems@.take(it.index@ as int))), elems_small(elems.v@),
 //|                 insts_are(layout.insts@, strukt.elems@.take(it.index@ as int), self.cell_map),
@@ -196,7 +198,7 @@ impl GdsImporter {
 //|             assert(annots(e0, ts.take(0)) =~= Seq::<gds21::GdsTextElem>::empty()) by { assert(ts.take(0) =~= Seq::<gds21::GdsTextElem>::empty()); }
 //|         }
 //@   loop 2
-//|             invariant obeys_key_model::<i16>(), self.cell_map == old(self).cell_map, self.ctx@ == old(self).ctx@.push(ErrorContext::Impl), layout.name@ == strukt.name@, layout.elems@.len() == 0,
+//|             invariant obeys_key_model::<i16>(), self.cell_map == old(self).cell_map, self.lib == old(self).lib, self.ctx@ == old(self).ctx@.push(ErrorContext::Impl), layout.name@ == strukt.name@, layout.elems@.len() == 0,
 //|                 layout.insts@ == insts1, vp_t <= texts@.len(), texts_are(texts@, ts), pass1(e0, gs), elems_small(e0), buckets_ok(layers@, e0), elems.v@.len() == e0.len(), e0.len() == gs.len(),
 //|                 forall|i: int| 0 <= i < e0.len() ==> elem_done(#[trigger] elems.v@[i], e0[i], ts.take(vp_t as int)),
 //|                 layout.annotations@.len() == annots(e0, ts.take(vp_t as int)).len(),
@@ -208,7 +210,7 @@ impl GdsImporter {
 //@   loop 3 iter it3
 //|                 invariant elems.v@.len() == e0.len(), loc == tpt(t), **textelem == t, j == vp_t as int - 1, 0 <= j < ts.len(), elems_small(e0), it3.index@ <= layer@.len(),
 //|                     layers@.dom().contains(t.layer) && *layer == layers@[t.layer], buckets_ok(layers@, e0), layout.annotations@ == an1, ts[j] == t, layout.insts@ == insts1,
-//|                     self.cell_map == old(self).cell_map, self.ctx@ == old(self).ctx@.push(ErrorContext::Impl), layout.name@ == strukt.name@, layout.elems@.len() == 0,
+//|                     self.cell_map == old(self).cell_map, self.lib == old(self).lib, self.ctx@ == old(self).ctx@.push(ErrorContext::Impl), layout.name@ == strukt.name@, layout.elems@.len() == 0,
 //|                     hit == (exists|q: int| 0 <= q < it3.index@ && lhit(e0[(#[trigger] layer@[q]).idx as int], t)),
 //|                     forall|i: int| 0 <= i < e0.len() ==> elem_done(#[trigger] elems.v@[i], e0[i], if visited(layer@, it3.index@ as int, i) { ts.take(j + 1) } else { ts.take(j) }),
 //@   before /let elem = &mut elems\.v\[ekey\.idx\];/
@@ -327,6 +329,177 @@ proof fn lemma_no_hit(e0: Seq<Element>, ev: Seq<Element>, m: Map<i16, Vec<Elemen
         assert(net_after(e0[i], ts.take(j + 1)) == net_after(e0[i], ts.take(j)));
     }
 }
+
+// =====================================================================================================
+// LIBRARY LEVEL (C06): GdsImporter::import_cell / import_and_add / import_lib
+// =====================================================================================================
+/// model of `impl From<Layout> for Cell` (data.rs): named after the layout, only the layout view
+impl vstd::std_specs::convert::FromSpecImpl<Layout> for Cell {
+    open spec fn obeys_from_spec() -> bool { true }
+    open spec fn from_spec(src: Layout) -> Cell { Cell { name: src.name, abs: None, layout: Some(src) } }
+}
+impl From<Layout> for Cell {
+    #[verifier::external_body]
+    fn from(src: Layout) -> (r: Cell) ensures r.name@ == src.name@, r.layout == Some(src), r.abs is None { unimplemented!() }
+}
+/// model of PtrList::insert (= add): wrap the cell in a NEW handle, append it, return the handle
+#[verifier::external_body]
+pub fn vp_cells_insert(cells: &mut Vec<Ptr<Cell>>, c: Cell) -> (r: Ptr<Cell>)
+    ensures final(cells)@ == old(cells)@.push(r), pointee(r) == c, !old(cells)@.contains(r),
+{ unimplemented!() }
+impl CellMap {
+    /// model of HashMap::insert: the key now maps to `v`, every other key as before
+    #[verifier::external_body]
+    pub fn insert(&mut self, k: String, v: Ptr<Cell>) -> (r: Option<Ptr<Cell>>)
+        ensures forall|q: Seq<char>| #[trigger] final(self).lookup(q) == (if q == k@ { Some(v) } else { old(self).lookup(q) }),
+    { unimplemented!() }
+}
+/// the raw unit a GDSII UNITS pair stands for (import_units: float comparisons, proved against its oracle by Kani in unit raw_units) — here an opaque function
+pub uninterp spec fn units_of(u: gds21::GdsUnits) -> Option<Units>;
+impl GdsImporter {
+    #[verifier::external_body]
+    fn import_units(&mut self, units: &gds21::GdsUnits) -> (r: LayoutResult<Units>)
+        ensures final(self).cell_map == old(self).cell_map, final(self).lib == old(self).lib, (r is Ok) == (units_of(*units) is Some), r is Ok ==> Some(r->Ok_0) == units_of(*units),
+    { unimplemented!() }
+}
+/// the structure a reference element names
+pub open spec fn rname(e: gds21::GdsElement) -> Option<Seq<char>> {
+    match e { gds21::GdsElement::GdsStructRef(x) => Some(x.name@), gds21::GdsElement::GdsArrayRef(x) => Some(x.name@), _ => None }
+}
+pub open spec fn snames(v: Seq<&gds21::GdsStruct>) -> Seq<Seq<char>> { Seq::new(v.len(), |i: int| v[i].name@) }
+/// what GdsDepOrder::order guarantees when it succeeds (proved for the real orderer in unit gds_order): every structure of the library exactly
+/// once, only library structures, each after the structures it references
+pub open spec fn ord_ok(v: Seq<&gds21::GdsStruct>, lib: gds21::GdsLibrary) -> bool {
+    &&& snames(v).no_duplicates()
+    &&& forall|k: int| 0 <= k < lib.structs@.len() ==> snames(v).contains((#[trigger] lib.structs@[k]).name@)
+    &&& forall|i: int| 0 <= i < v.len() ==> exists|k: int| 0 <= k < lib.structs@.len() && lib.structs@[k] == *#[trigger] v[i]
+    &&& forall|i: int, j: int| 0 <= i < v.len() && 0 <= j < v[i].elems@.len() && rname(#[trigger] v[i].elems@[j]) is Some ==> snames(v.take(i)).contains(rname(v[i].elems@[j])->0)
+}
+pub struct GdsDepOrder;
+impl GdsDepOrder {
+    /// ASSUMED copy of the contract proved in unit gds_order
+    #[verifier::external_body]
+    pub fn order<'a>(gdslib: &'a gds21::GdsLibrary) -> (r: LayoutResult<Vec<&'a gds21::GdsStruct>>)
+        ensures r is Ok ==> ord_ok(r->Ok_0@, *gdslib),
+    { unimplemented!() }
+}
+pub open spec fn derefs_s<'a, 'b>(s: Seq<&'b &'a gds21::GdsStruct>) -> Seq<&'a gds21::GdsStruct> { Seq::new(s.len(), |i: int| *s[i]) }
+/// what the cell map answers for name `q` once the first `n` structures of `v` have been imported on top of map `m0`
+pub open spec fn lk_after(m0: CellMap, v: Seq<&gds21::GdsStruct>, cells: Seq<Ptr<Cell>>, n: nat, q: Seq<char>) -> Option<Ptr<Cell>>
+    decreases n
+{
+    if n == 0 { m0.lookup(q) } else if v[n - 1].name@ == q { Some(cells[n - 1]) } else { lk_after(m0, v, cells, (n - 1) as nat, q) }
+}
+pub open spec fn map_is(m: CellMap, m0: CellMap, v: Seq<&gds21::GdsStruct>, cells: Seq<Ptr<Cell>>, n: nat) -> bool {
+    forall|q: Seq<char>| #[trigger] m.lookup(q) == lk_after(m0, v, cells, n, q)
+}
+/// the cell behind handle `p` is the import of structure `strukt` against map `m`: the structure's name, a layout view and nothing else
+pub open spec fn cell_imp(c: Cell, strukt: gds21::GdsStruct, m: CellMap) -> bool {
+    c.name@ == strukt.name@ && c.layout is Some && c.abs is None && layout_imp(c.layout->0, strukt, m)
+}
+pub open spec fn cell_imported(cells: Seq<Ptr<Cell>>, v: Seq<&gds21::GdsStruct>, m0: CellMap, i: int) -> bool {
+    exists|m: CellMap| map_is(m, m0, v, cells, i as nat) && #[trigger] cell_imp(pointee(cells[i]), *v[i], m)
+}
+/// the imported library: name, units, one cell per structure along a dependency ordering of the structures (every structure, once), each imported
+/// against the name -> cell map of the structures before it
+pub open spec fn lib_imp(lib: Library, glib: gds21::GdsLibrary, m0: CellMap, m1: CellMap) -> bool {
+    &&& lib.name@ == glib.name@ &&& Some(lib.units) == units_of(glib.units)
+    &&& exists|v: Seq<&gds21::GdsStruct>| ord_ok(v, glib) && #[trigger] cells_imp(lib.cells@, v, m0) && map_is(m1, m0, v, lib.cells@, v.len())
+}
+pub open spec fn cells_imp(cells: Seq<Ptr<Cell>>, v: Seq<&gds21::GdsStruct>, m0: CellMap) -> bool {
+    cells.len() == v.len() && forall|i: int| 0 <= i < v.len() ==> #[trigger] cell_imported(cells, v, m0, i)
+}
+pub proof fn lemma_lk_ext(m0: CellMap, v: Seq<&gds21::GdsStruct>, c1: Seq<Ptr<Cell>>, c2: Seq<Ptr<Cell>>, n: nat, q: Seq<char>)
+    requires n <= c1.len(), n <= c2.len(), forall|k: int| 0 <= k < n ==> c1[k] == c2[k],
+    ensures lk_after(m0, v, c1, n, q) == lk_after(m0, v, c2, n, q),
+    decreases n
+{
+    if n > 0 { lemma_lk_ext(m0, v, c1, c2, (n - 1) as nat, q); }
+}
+/// a name none of the first `n` structures carries is looked up as in the initial map
+pub proof fn lemma_lk_miss(m0: CellMap, v: Seq<&gds21::GdsStruct>, cells: Seq<Ptr<Cell>>, n: nat, q: Seq<char>)
+    requires forall|k: int| 0 <= k < n ==> (#[trigger] v[k]).name@ != q,
+    ensures lk_after(m0, v, cells, n, q) == m0.lookup(q),
+    decreases n
+{
+    if n > 0 { lemma_lk_miss(m0, v, cells, (n - 1) as nat, q); }
+}
+pub open spec fn strukt_ok(s: gds21::GdsStruct) -> bool { forall|k: int| 0 <= k < s.elems@.len() && (#[trigger] s.elems@[k]) is GdsBoundary ==> s.elems@[k]->GdsBoundary_0.xy@.len() < 0x7fff_ffff_ffff_ffff }
+impl GdsImporter {
+//@ fn layout21raw/src/gds.rs :: impl GdsImporter :: fn import_cell
+//@   ret r
+//@   spec
+//|     requires obeys_key_model::<i16>(), strukt_ok(*strukt),
+//|     ensures final(self).cell_map == old(self).cell_map, final(self).lib == old(self).lib,
+//|         r is Ok ==> final(self).ctx@ == old(self).ctx@ && cell_imp(r->Ok_0, *strukt, old(self).cell_map),
+//@   before /^        Ok\(cell\)$/
+//|         proof { assert(self.ctx@ =~= old(self).ctx@); }
+//@ end
+//@ fn layout21raw/src/gds.rs :: impl GdsImporter :: fn import_and_add
+//@   ret r
+//@   sub R5 /let key = self\.lib\.cells\.insert\(cell\);/ => let key = vp_cells_insert(&mut self.lib.cells, cell);
+//@   sub R5? /self\.cell_map\.insert\(name\.to_string\(\), key\);/ => self.cell_map.insert(name.clone(), key);
+//@   spec
+//|     requires obeys_key_model::<i16>(), strukt_ok(*strukt),
+//|     ensures final(self).lib.name == old(self).lib.name, final(self).lib.units == old(self).lib.units,
+//|         // a structure whose name is already in the map is skipped
+//|         old(self).cell_map.lookup(strukt.name@) is Some ==> r is Ok && final(self).lib == old(self).lib && final(self).cell_map == old(self).cell_map && final(self).ctx@ == old(self).ctx@,
+//|         // otherwise its cell is appended to the library behind a new handle, and the name now maps to that handle
+//|         old(self).cell_map.lookup(strukt.name@) is None && r is Ok ==> ({
+//|             let cs = final(self).lib.cells@; let n = old(self).lib.cells@.len() as int;
+//|             &&& final(self).ctx@ == old(self).ctx@ &&& cs.len() == n + 1 &&& cs.take(n) == old(self).lib.cells@ &&& cell_imp(pointee(cs[n]), *strukt, old(self).cell_map)
+//|             &&& forall|q: Seq<char>| #[trigger] final(self).cell_map.lookup(q) == (if q == strukt.name@ { Some(cs[n]) } else { old(self).cell_map.lookup(q) })
+//|         }),
+//@ end
+//@ fn layout21raw/src/gds.rs :: impl GdsImporter :: fn import_lib
+//@   ret r
+//@   sub R3 /self\.import_and_add\(strukt\)\?(\s*\n\s*\})/ => self.import_and_add(strukt)?;\1
+//@   sub R6 /for strukt in &GdsDepOrder::order\(&gdslib\)\? \{/ => let vp_order = GdsDepOrder::order(&gdslib)?; for strukt in vp_order.iter() {
+//@   spec
+//|     requires obeys_key_model::<i16>(), old(self).lib.cells@.len() == 0, forall|q: Seq<char>| #[trigger] old(self).cell_map.lookup(q) is None,
+//|         forall|k: int| 0 <= k < gdslib.structs@.len() ==> strukt_ok(#[trigger] gdslib.structs@[k]),
+//|     ensures r is Ok ==> lib_imp(final(self).lib, *gdslib, old(self).cell_map, final(self).cell_map),
+//|         units_of(gdslib.units) is None ==> r is Err,
+//@   loop 1 iter it
+//|             invariant obeys_key_model::<i16>(), forall|q: Seq<char>| #[trigger] old(self).cell_map.lookup(q) is None, forall|k: int| 0 <= k < gdslib.structs@.len() ==> strukt_ok(#[trigger] gdslib.structs@[k]),
+//|                 self.lib.name@ == gdslib.name@, Some(self.lib.units) == units_of(gdslib.units), ord_ok(vp_order@, *gdslib), derefs_s(it.seq()) =~= vp_order@,
+//|                 it.index@ <= vp_order@.len(), self.lib.cells@.len() == it.index@,
+//|                 forall|i: int| 0 <= i < it.index@ ==> #[trigger] cell_imported(self.lib.cells@, vp_order@, old(self).cell_map, i),
+//|                 map_is(self.cell_map, old(self).cell_map, vp_order@, self.lib.cells@, it.index@ as nat),
+//@   before1 /self\.import_and_add\(strukt\)\?/
+//|             let ghost m_prev = self.cell_map; let ghost cells_prev = self.lib.cells@; let ghost n = it.index@ as int; let ghost v = vp_order@; let ghost m0 = old(self).cell_map;
+//|             proof {
+//|                 assert(**strukt == *v[n]);
+//|                 let k = choose|k: int| 0 <= k < gdslib.structs@.len() && gdslib.structs@[k] == *#[trigger] v[n];
+//|                 assert(strukt_ok(gdslib.structs@[k]));
+//|                 // its name is not in the map yet: the names of the ordering are distinct and the map started empty
+//|                 assert forall|j: int| 0 <= j < n implies (#[trigger] v[j]).name@ != v[n].name@ by { assert(snames(v)[j] == v[j].name@); assert(snames(v)[n] == v[n].name@); }
+//|                 lemma_lk_miss(m0, v, cells_prev, n as nat, v[n].name@);
+//|                 assert(m_prev.lookup(v[n].name@) is None);
+//|             }
+//@   loopend 1
+//|             proof {
+//|                 let cs = self.lib.cells@;
+//|                 assert(cs[n] == cs.take(n + 1)[n]);
+//|                 assert forall|q: Seq<char>| #[trigger] lk_after(m0, v, cells_prev, n as nat, q) == lk_after(m0, v, cs, n as nat, q) by { assert(cs.take(n) == cells_prev); lemma_lk_ext(m0, v, cells_prev, cs, n as nat, q); }
+//|                 assert(map_is(m_prev, m0, v, cs, n as nat));
+//|                 assert(cell_imp(pointee(cs[n]), *v[n], m_prev));
+//|                 assert(cell_imported(cs, v, m0, n));
+//|                 assert forall|i: int| 0 <= i < n implies #[trigger] cell_imported(cs, v, m0, i) by {
+//|                     assert(cell_imported(cells_prev, v, m0, i));
+//|                     let m = choose|m: CellMap| map_is(m, m0, v, cells_prev, i as nat) && #[trigger] cell_imp(pointee(cells_prev[i]), *v[i], m);
+//|                     assert forall|q: Seq<char>| #[trigger] m.lookup(q) == lk_after(m0, v, cs, i as nat, q) by { assert(cs.take(n) == cells_prev); lemma_lk_ext(m0, v, cells_prev, cs, i as nat, q); }
+//|                     assert(cells_prev[i] == cs[i]) by { assert(cs.take(n)[i] == cs[i]); }
+//|                     assert(map_is(m, m0, v, cs, i as nat) && cell_imp(pointee(cs[i]), *v[i], m));
+//|                 }
+//|             }
+//@   before /^        Ok\(\(\)\)$/
+//|         proof { assert(cells_imp(self.lib.cells@, vp_order@, old(self).cell_map)); }
+//@ end
+}
+proof fn canary_lib_imp(lib: Library, glib: gds21::GdsLibrary, m0: CellMap, m1: CellMap)
+    requires lib_imp(lib, glib, m0, m1), forall|q: Seq<char>| #[trigger] m0.lookup(q) is None, glib.structs@.len() == 2, glib.structs@[1].elems@.len() == 1, glib.structs@[1].elems@[0] is GdsStructRef,
+    ensures false {}
 proof fn canary_insts(is: Seq<Instance>, es: Seq<gds21::GdsElement>, m: CellMap) requires insts_are(is, es, m), es.len() == 2, es[0] is GdsStructRef, es[1] is GdsArrayRef, is.len() == 5 ensures false {}
 proof fn canary_slots(s: ElemSlots) requires s.v@.len() == 2 ensures false {}
 }
